@@ -1836,6 +1836,15 @@ func main() {
 		for i, x := range []*big.Int{big.NewInt(0), big.NewInt(1), two, nm1, k.N, k.p, new(big.Int).Mul(k.q, two), new(big.Int).Sub(k.N, k.p)} {
 			cases = append(cases, k.qCase(id("unit", i), "unit", x))
 		}
+		// nonce-group scaling with exponents above the prime factors (reduced exponents on the CRT path)
+		{
+			u := k.genNonce(rs)
+			phi1 := new(big.Int).Add(new(big.Int).Mul(new(big.Int).Sub(k.p, one), new(big.Int).Sub(k.q, one)), one)
+			for i, sc := range []*big.Int{new(big.Int).Add(k.N, one), new(big.Int).Neg(new(big.Int).Add(k.N, one)), k.p, new(big.Int).Neg(k.q), phi1,
+				rs.BigBits(k.bits + 40), new(big.Int).Neg(rs.BigBits(k.bits/2 + 3))} {
+				cases = append(cases, k.qCase(id("nscale-big", i), "nscale", u, sc), k.kCase(id("nscale-big", i), "nscale", u, sc))
+			}
+		}
 		for i := 0; i < nsingle; i++ {
 			x, y := k.genPlain(rs), k.genPlain(rs)
 			cases = append(cases,
